@@ -257,6 +257,31 @@ func (a *Act) lookupLocal(name string, at *ssa.BasicBlock, atIdx int, phiOv map[
 	if at == nil {
 		return Val{}, false
 	}
+	// variables that live in memory (an Alloc carries their name): always read through
+	// the allocation, value DebugRefs of such variables are stale after a store
+	for b := at; b != nil; b = b.Idom() {
+		var bestA *nameDef
+		for i := range defs {
+			d := &defs[i]
+			if d.blk != b {
+				continue
+			}
+			if _, isAlloc := d.v.(*ssa.Alloc); !isAlloc {
+				continue
+			}
+			if b == at && d.idx >= atIdx {
+				continue
+			}
+			if bestA == nil || d.idx > bestA.idx {
+				bestA = d
+			}
+		}
+		if bestA != nil {
+			if v, ok := a.vals[bestA.v]; ok {
+				return Val{T: v.T, S: "$addr", G: v.G, L: v.L}, true
+			}
+		}
+	}
 	// nearest dominating definition: walk idom chain from `at`
 	var best *nameDef
 	for b := at; b != nil && best == nil; b = b.Idom() {
